@@ -25,7 +25,7 @@ SPEC = {
                     "a returned non-canonical object is not by itself a violation",
                     "libFuzzer campaigns are only approximately reproducible; the saved artifact is the reproducible unit"],
     "tiers": {"quick": {"workers": 8, "runs": 14000, "empty_workers": 1, "empty_runs": 14000, "max_len": 512},
-              "thorough": {"workers": 16, "runs": 400000, "empty_workers": 2, "empty_runs": 400000, "max_len": 1024}},
+              "thorough": {"workers": 16, "runs": 250000, "empty_workers": 2, "empty_runs": 250000, "max_len": 1024}},
 }
 
 if __name__ == "__main__":
